@@ -49,11 +49,21 @@ func (s *synchronizer) sync(_ context.Context, res Response) (Response, bool, er
 
 	if s.cycle.counter == 0 {
 		s.cycle.res = res
-	} else if s.cycle.res.SeqNum != res.SeqNum {
-		s.L.DPanic("unexpected sequence number",
-			zap.Int("expected", s.cycle.res.SeqNum),
-			zap.Int("actual", res.SeqNum),
-		)
+	} else if res.SeqNum > s.cycle.res.SeqNum {
+		// The open cycle can no longer complete: nodes answer requests in order, and an
+		// asynchronous write is only answered by the nodes on which it failed. Start a
+		// new cycle with this response and keep the error the abandoned one carried, so
+		// that the next synchronous call reports it instead of waiting forever.
+		err := s.cycle.res.Err
+		s.cycle.res, s.cycle.counter = res, 0
+		if s.cycle.res.Err == nil {
+			s.cycle.res.Err = err
+		}
+	} else if res.SeqNum < s.cycle.res.SeqNum {
+		// A late answer to an earlier (asynchronous) request: only its error matters.
+		if res.Err != nil && s.cycle.res.Err == nil {
+			s.cycle.res.Err = res.Err
+		}
 		return res, false, nil
 	}
 	s.cycle.counter++
